@@ -2145,6 +2145,13 @@ fn analyze_structural(
 					};
 					typer.contextual_type = contextual_type;
 					let expression = member.expression.analyze(typer);
+					let name = name.and_then(|name| {
+						match analyze_member_value(&name, &expression, typer)
+						{
+							Ok(()) => Ok(name),
+							Err(error) => Err(error.into()),
+						}
+					});
 					MemberExpression {
 						name,
 						offset,
@@ -2159,6 +2166,40 @@ fn analyze_structural(
 			}
 		}
 		Err(poison) => Expression::Poison(poison),
+	}
+}
+
+/// The value of a member in a structure literal must fit the type of that
+/// member, just like the value in an assignment to that member. In addition
+/// `char8` is accepted as an alias of `u8`, so that a string literal can be
+/// used to initialize a member of type `[N]u8`.
+fn analyze_member_value(
+	name: &Identifier,
+	value: &Expression,
+	typer: &mut Typer,
+) -> Result<(), Error>
+{
+	let value_type = match (value.value_type(), typer.get_symbol(name))
+	{
+		(Some(Ok(vt)), Some(Ok(mt))) if !vt.equals(&mt) => vt,
+		_ => return Ok(()),
+	};
+	match typer.put_symbol(name, Some(Ok(value_type)))
+	{
+		Err(Error::ConflictingTypes {
+			name,
+			current_type,
+			previous_type,
+			location: _,
+			previous,
+		}) => Err(Error::ConflictingTypesInAssignment {
+			name,
+			current_type,
+			previous_type,
+			location: value.location().clone(),
+			previous,
+		}),
+		result => result,
 	}
 }
 
